@@ -168,6 +168,11 @@ def run(ctx):
                 "and every returned cell is compared. Tile-cache histories come from TileCache.tla. Non-trivial: rectangles "
                 "with an unaligned corner or spanning several tiles.")
     d = ctx.tlc_dir("topo")
+    # Design => Props for the mosaic loop (two pairs of half-open masks, row-major assignment) on a scaled world
+    with open(os.path.join(d, "MCMosaic.cfg"), "w") as f:
+        f.write("CONSTANTS TR = 2 TC = %d\nSPECIFICATION Spec\nINVARIANT Seamless\nINVARIANT NeverTwice\nINVARIANT NoShapeError\n"
+                % (2 if quick else 3))
+    ctx.tlc(d, "MosaicDesign", "MCMosaic.cfg", workers=16, timeout=3000)
     near = lambda u: [u - 30, u - 3, u - 1, u, u + 1, u + 30]
     cases = []
     # corner of four tiles (40 N, 140 W), a tile edge away from corners, the southern band edge, and +-180 degrees
